@@ -56,6 +56,21 @@ def scenario_ops(name, nd, nblk=8):
         pre = [[('write', d, 'a', det_bytes('%s/a3' % d, nblk * BS - 5 * i)) for i, d in enumerate(disks[:-1])]]
         pend = [('write', disks[-1], 'n', det_bytes('%s/n3' % disks[-1], (nblk // 2) * BS + 9))]
         return pre, pend
+    if name == 'addsfit':
+        # additions only that do NOT change the parity size: d1 holds a synced file over every stripe, the other disks a shorter one;
+        # the new files go behind those, inside the existing parity (with a version 3 content file -- split parity, reduced hash
+        # size -- nothing but the additions themselves asks for the content save that precedes the sync loop)
+        pre = [[('write', d, 'a', det_bytes('%s/af' % d, (nblk if i == 0 else nblk // 2) * BS - (7 if i == 0 else 0))) for i, d in enumerate(disks)]]
+        pend = [('write', d, 'n', det_bytes('%s/nf' % d, (nblk // 2) * BS - 13 * i)) for i, d in enumerate(disks) if i >= 1]
+        return pre, pend
+    if name == 'touchskip':
+        # one stripe really changes (a new one-block file on the last disk lands in stripe 0 beside d1/a), all the others only LOOK
+        # changed: d1/b is rewritten with the same bytes and a new time stamp, so its stripes are visited by sync but need no
+        # parity update (io_write_next is called with skip set)
+        bdata = det_bytes('d1/bskip', nblk * BS)
+        pre = [[('write', disks[0], 'a', det_bytes('d1/askip', BS)), ('write', disks[0], 'b', bdata)]]
+        pend = [('write', disks[0], 'b', bdata), ('write', disks[-1], 'n', det_bytes('dl/nskip', BS - 5))]
+        return pre, pend
     if name == 'wipe':
         # EVERY file of the last data disk is removed (needs sync -E / --force-empty): its blocks become DELETED in stripes shared
         # with the synced files of the other disks, whose parity has to be recomputed; nothing else changes
@@ -78,8 +93,9 @@ def scenario_ops(name, nd, nblk=8):
 class Scn:
     """a reproducible array: build() creates it (replaying the phases with clean syncs), pending changes applied"""
 
-    def __init__(self, binary, shim, name, nd, np_, ncontent=1, nblk=8):
+    def __init__(self, binary, shim, name, nd, np_, ncontent=1, nblk=8, splits=1, hashsize=None):
         self.binary, self.shim, self.name, self.nd, self.np, self.ncontent, self.nblk = binary, shim, name, nd, np_, ncontent, nblk
+        self.splits, self.hashsize = splits, hashsize        # split parity / reduced hash size: version 3 content files
         self.pre, self.pend = scenario_ops(name, nd, nblk)
 
     def apply(self, a, ops, tbase):
@@ -90,7 +106,8 @@ class Scn:
                 a.remove(op[1], op[2])
 
     def build(self, pending=True):
-        a = Array(self.binary, nd=self.nd, np_=self.np, ncontent=self.ncontent, shim=self.shim)
+        a = Array(self.binary, nd=self.nd, np_=self.np, ncontent=self.ncontent, shim=self.shim, splits=self.splits, hashsize=self.hashsize)
+        a.splits_, a.hashsize_ = self.splits, self.hashsize
         for i, ph in enumerate(self.pre):
             self.apply(a, ph, T0 + i * 1000 * 10**9)
             r = a.run('sync')
@@ -101,7 +118,7 @@ class Scn:
         return a
 
     def describe(self):
-        return {'scenario': self.name, 'nd': self.nd, 'np': self.np, 'ncontent': self.ncontent, 'nblk': self.nblk}
+        return {'scenario': self.name, 'nd': self.nd, 'np': self.np, 'ncontent': self.ncontent, 'nblk': self.nblk, 'splits': self.splits, 'hashsize': self.hashsize}
 
 
 def drop(a):
